@@ -38,8 +38,9 @@ Definition conc_flat (t : transfer) (es : list ev) : list (list Z) :=
 
 (* fingerprint of an observation (list of lists of integers); checks/c03_lib.py computes the same number
    from the observations of the real code, so that a generated case is `model expression, one integer` *)
-Definition HP : Z := 2305843009213693951.
-Definition hstep (h x : Z) : Z := (h * 1000003 + x + 7) mod HP.
+(* arithmetic modulo 2^62 by masking: Z.modulo is a bit-by-bit long division and dominated the evaluation *)
+Definition HP : Z := 4611686018427387903.
+Definition hstep (h x : Z) : Z := Z.land (h * 1000003 + x + 7) HP.
 Definition hlist (h : Z) (l : list Z) : Z := hstep (fold_left hstep l h) 977.
 Definition hh (ll : list (list Z)) : Z := fold_left hlist ll 1.
 
@@ -51,12 +52,12 @@ Fixpoint dec_sched (fuel : nat) (n : Z) (cs : list call) : list ev :=
   | O => []
   | S f =>
       if Z.eqb n 0 then [] else
-      let d := n mod 8 in
-      let r := n / 8 in
+      let d := Z.land n 7 in
+      let r := Z.shiftr n 3 in
       if Z.eqb d 1 then match cs with c :: cs' => Capture c :: dec_sched f r cs' | [] => dec_sched f r cs end
       else if Z.eqb d 5 then Step :: dec_sched f r cs
       else if Z.eqb d 6 then Wake :: dec_sched f r cs
-      else if Z.eqb d 7 then Cancel (Z.to_nat (r mod 8 - 1)) :: dec_sched f (r / 8) cs
+      else if Z.eqb d 7 then Cancel (Z.to_nat (Z.land r 7 - 1)) :: dec_sched f (Z.shiftr r 3) cs
       else Start (Z.to_nat (d - 2)) :: dec_sched f r cs
   end.
 Definition dummy_t : transfer := mkT UNSET Upload None None false None None 0%N 0%N 0%N false false false false TNone TNone.
